@@ -579,8 +579,9 @@ class Node(object):
             msg = f'Child type "{new_child.name}" and "{old_child.name}" mismatch'
             raise ValueError(msg)
 
+        index = self._children.index(old_child)
         new_child.parent = self
-        self._children[self._children.index(old_child)] = new_child
+        self._children[index] = new_child
         if delete_old:
             Node.delete_node_instance(id=old_child.id)
 
